@@ -1961,6 +1961,12 @@ meta:
 				len = scan_meta_key(&source[l->start]);
 				m = meta_new(source, l->start, len);
 				start = l->start + len + 1;
+
+				if (start > l->start + l->len) {
+					// Key scanned past the end of the line (the parsed range cut it short)
+					start = l->start + l->len;
+				}
+
 				len = l->start + l->len - start;
 
 				if (char_is_line_ending(source[start + len])) {
